@@ -284,11 +284,12 @@ theorem step_num (s : List Nat) (g1 n : Nat) (rest : List Nat) (pos : PPos) (o :
     Bool.and_true, if_false, if_true, Bool.false_eq_true]
 
 
-/-- The precision arm: at `Start`, `MinWidth` or `Precision`, on `"." ++ p.to_string()` at the end. -/
-theorem step_prec (s : List Nat) (g1 p : Nat) (pos : PPos) (o : Opts)
-    (hp : p ≤ u32Max) (hpos : pos = .start ∨ pos = .minWidth ∨ pos = .precision) :
-    step s g1 46 (digits p) pos o = .ok (.type, { o with precision := some p }, []) := by
-  obtain ⟨m, tl, he, hm, _, _, hc⟩ := digits_spec p hp [] (by simp)
+/-- The precision arm: at `Start`, `MinWidth` or `Precision`, on `"." ++ p.to_string() ++ rest`. -/
+theorem step_prec (s : List Nat) (g1 p : Nat) (rest : List Nat) (pos : PPos) (o : Opts)
+    (hp : p ≤ u32Max) (hpos : pos = .start ∨ pos = .minWidth ∨ pos = .precision)
+    (hrd : ∀ c, rest.head? = some c → isDigit c = false) :
+    step s g1 46 (digits p ++ rest) pos o = .ok (.type, { o with precision := some p }, rest) := by
+  obtain ⟨m, tl, he, hm, _, _, hc⟩ := digits_spec p hp rest hrd
   have hna : isAlignCh (48 + m) = false := isDigit_not_align _ (isDigit_add m hm)
   have hd : isDigit (48 + m) = true := isDigit_add m hm
   have hpo : posIn pos [.start, .minWidth, .precision] = true := by
@@ -297,11 +298,10 @@ theorem step_prec (s : List Nat) (g1 p : Nat) (pos : PPos) (o : Opts)
   have h46a : isAlignCh 46 = false := by decide
   have h46d : isDigit 46 = false := by decide
   have h4648 : (46 == 48) = false := by decide
-  simp only [List.append_nil] at hc
   rw [he]
-  simp only [step, headIs, hna, hd, hpo, hsub, hc, h46a, h46d, h4648, Bool.and_false, Bool.false_and,
-    Bool.and_true, if_false, if_true, Bool.false_eq_true, beq_self_eq_true, List.isEmpty_cons,
-    Bool.not_false]
+  simp only [List.cons_append, step, headIs, hna, hd, hpo, hsub, hc, h46a, h46d, h4648, Bool.and_false,
+    Bool.false_and, Bool.and_true, if_false, if_true, Bool.false_eq_true, beq_self_eq_true,
+    List.isEmpty_cons, Bool.not_false]
 
 theorem loop_step (s : List Nat) (g1 f next : Nat) (rest : List Nat) (pos pos' : PPos) (o o' : Opts)
     (rest' : List Nat) (h : step s g1 next rest pos o = .ok (pos', o', rest')) :
@@ -313,7 +313,8 @@ theorem loop_nil (s : List Nat) (g1 f : Nat) (pos : PPos) (o : Opts) : loop s g1
 
 def wText (w : Option Nat) : List Nat := optStr (w.map digits)
 def pText (p : Option Nat) : List Nat := optStr (p.map (fun p => 46 :: digits p))
-def iters (w p : Option Nat) : Nat := (if w.isSome then 1 else 0) + (if p.isSome then 1 else 0)
+def b2n (b : Bool) : Nat := if b then 1 else 0
+def iters (w p : Option Nat) (r : Option Repr') : Nat := b2n w.isSome + b2n p.isSome + b2n r.isSome
 
 theorem digits_ne_nil (n : Nat) : digits n ≠ [] := by
   obtain ⟨m, tl, he, _⟩ := digitsAux_head (n + 1) n (by omega)
@@ -326,21 +327,52 @@ theorem digits_length_pos (n : Nat) : 1 ≤ (digits n).length := by
   | nil => contradiction
   | cons a b => simp
 
-theorem iters_le (w p : Option Nat) : iters w p ≤ (wText w ++ pText p).length := by
+/-- the representation letter: what `parse` reads back, and that no other arm claims it -/
+theorem reprStr_spec (r : Repr') :
+    ∃ rc, reprText (some r) = [rc] ∧ reprOf rc = some r ∧ isAlignCh rc = false ∧ isDigit rc = false
+      ∧ (rc == 46) = false ∧ (rc == 48) = false := by
+  cases r
+  · exact ⟨63, rfl, by decide, by decide, by decide, by decide, by decide⟩
+  · exact ⟨120, rfl, by decide, by decide, by decide, by decide, by decide⟩
+  · exact ⟨88, rfl, by decide, by decide, by decide, by decide, by decide⟩
+  · exact ⟨98, rfl, by decide, by decide, by decide, by decide, by decide⟩
+  · exact ⟨111, rfl, by decide, by decide, by decide, by decide, by decide⟩
+  · exact ⟨101, rfl, by decide, by decide, by decide, by decide, by decide⟩
+  · exact ⟨69, rfl, by decide, by decide, by decide, by decide, by decide⟩
+
+theorem rText_length (r : Option Repr') : (reprText r).length = b2n r.isSome := by
+  cases r with
+  | none => rfl
+  | some r => obtain ⟨rc, h, _⟩ := reprStr_spec r; simp [h, b2n]
+
+theorem rText_head (r : Option Repr') :
+    ∀ c, (reprText r).head? = some c → isDigit c = false ∧ isAlignCh c = false := by
+  intro c hc
+  cases r with
+  | none => simp [reprText] at hc
+  | some r =>
+    obtain ⟨rc, h, _, ha, hd, _⟩ := reprStr_spec r
+    simp [h] at hc
+    subst hc
+    exact ⟨hd, ha⟩
+
+theorem iters_le (w p : Option Nat) (r : Option Repr') :
+    iters w p r ≤ (wText w ++ pText p ++ reprText r).length := by
+  have hr := rText_length r
   cases w with
   | none =>
     cases p with
-    | none => simp [iters]
-    | some q => simp [iters, wText, pText, optStr]
+    | none => simp [iters, wText, pText, optStr, b2n, hr]
+    | some q => simp [iters, wText, pText, optStr, b2n, hr]; omega
   | some n =>
     have hn := digits_length_pos n
     cases p with
-    | none => simp [iters, wText, pText, optStr]; omega
-    | some q => simp [iters, wText, pText, optStr]; omega
+    | none => simp [iters, wText, pText, optStr, b2n, hr]; omega
+    | some q => simp [iters, wText, pText, optStr, b2n, hr]; omega
 
-/-- head of the width/precision text is never an alignment character -/
-theorem tail_head_not_align (w p : Option Nat) :
-    ∀ c, (wText w ++ pText p).head? = some c → isAlignCh c = false := by
+/-- head of the width/precision/representation text is never an alignment character -/
+theorem tail_head_not_align (w p : Option Nat) (r : Option Repr') :
+    ∀ c, (wText w ++ pText p ++ reprText r).head? = some c → isAlignCh c = false := by
   intro c hc
   cases w with
   | some n =>
@@ -355,44 +387,80 @@ theorem tail_head_not_align (w p : Option Nat) :
       simp [wText, pText, optStr] at hc
       subst hc
       decide
-    | none => simp [wText, pText, optStr] at hc
+    | none =>
+      simp only [wText, pText, optStr, Option.map_none, List.nil_append] at hc
+      exact (rText_head r c hc).2
 
-/-- The width and precision phase of `parse`, started at `Start` or `MinWidth`. -/
-theorem loop_tail (s : List Nat) (g1 : Nat) (w p : Option Nat) (pos : PPos) (o : Opts) (f : Nat)
-    (hf : iters w p ≤ f)
+/-- The representation arm, at the end of the text. -/
+theorem loop_repr (s : List Nat) (g1 : Nat) (r : Option Repr') (pos : PPos) (o : Opts) (f : Nat)
+    (hf : b2n r.isSome ≤ f)
+    (hpos : pos = .start ∨ pos = .minWidth ∨ pos = .precision ∨ pos = .type)
+    (hor : o.repr = none) :
+    loop s g1 f pos o (reprText r) = .ok { o with repr := r } := by
+  cases r with
+  | none =>
+    simp only [reprText, loop_nil]
+    cases o; simp_all
+  | some r =>
+    obtain ⟨f', rfl⟩ : ∃ f', f = f' + 1 := ⟨f - 1, by simp [b2n] at hf; omega⟩
+    obtain ⟨rc, hs, hro, ha, hd, h46, h48⟩ := reprStr_spec r
+    have hpo : posIn pos [.start, .minWidth, .precision, .type] = true := by
+      rcases hpos with h | h | h | h <;> subst h <;> decide
+    have hstep : step s g1 rc [] pos o = .ok (.end, { o with repr := some r }, []) := by
+      simp only [step, headIs, ha, hd, h46, h48, hpo, hro, Option.isSome_some, Bool.and_false,
+        Bool.false_and, Bool.and_true, if_false, if_true, Bool.false_eq_true]
+    rw [hs, loop_step _ _ _ _ _ _ _ _ _ _ hstep, loop_nil]
+
+/-- The width, precision and representation phase of `parse`, started at `Start` or `MinWidth`. -/
+theorem loop_tail (s : List Nat) (g1 : Nat) (w p : Option Nat) (r : Option Repr') (pos : PPos)
+    (o : Opts) (f : Nat)
+    (hf : iters w p r ≤ f)
     (hw : ∀ n, w = some n → n ≤ u32Max) (hp : ∀ n, p = some n → n ≤ u32Max)
     (hpos : pos = .start ∨ pos = .minWidth)
-    (hom : o.minWidth = none) (hop : o.precision = none) :
-    loop s g1 f pos o (wText w ++ pText p) = .ok { o with minWidth := w, precision := p } := by
+    (hom : o.minWidth = none) (hop : o.precision = none) (hor : o.repr = none) :
+    loop s g1 f pos o (wText w ++ pText p ++ reprText r)
+      = .ok { o with minWidth := w, precision := p, repr := r } := by
+  have hrd : ∀ c, (reprText r).head? = some c → isDigit c = false := fun c hc => (rText_head r c hc).1
+  have hra : ∀ c, (reprText r).head? = some c → isAlignCh c = false := fun c hc => (rText_head r c hc).2
   cases w with
   | none =>
     cases p with
     | none =>
-      simp only [wText, pText, optStr, Option.map_none, List.append_nil, loop_nil]
+      simp only [wText, pText, optStr, Option.map_none, List.nil_append]
+      rw [loop_repr s g1 r pos o f (by simpa [iters, b2n] using hf)
+        (by rcases hpos with h | h <;> simp [h]) hor]
       cases o; simp_all
     | some q =>
-      obtain ⟨f', rfl⟩ : ∃ f', f = f' + 1 := ⟨f - 1, by simp [iters] at hf; omega⟩
-      have hs := step_prec s g1 q pos o (hp q rfl) (by rcases hpos with h | h <;> simp [h])
-      simp only [wText, pText, optStr, Option.map_none, Option.map_some, List.nil_append]
-      rw [loop_step _ _ _ _ _ _ _ _ _ _ hs, loop_nil]
+      obtain ⟨f', rfl⟩ : ∃ f', f = f' + 1 := ⟨f - 1, by simp [iters, b2n] at hf; omega⟩
+      have hs := step_prec s g1 q (reprText r) pos o (hp q rfl)
+        (by rcases hpos with h | h <;> simp [h]) hrd
+      simp only [wText, pText, optStr, Option.map_none, Option.map_some, List.nil_append, List.cons_append]
+      rw [loop_step _ _ _ _ _ _ _ _ _ _ hs,
+        loop_repr s g1 r .type { o with precision := some q } f'
+          (by simp [iters, b2n] at hf; simp [b2n]; omega) (by simp) hor]
       cases o; simp_all
   | some n =>
     cases p with
     | none =>
-      obtain ⟨f', rfl⟩ : ∃ f', f = f' + 1 := ⟨f - 1, by simp [iters] at hf; omega⟩
-      obtain ⟨d, tl, he, hs⟩ := step_num s g1 n [] pos o (hw n rfl) hpos (by simp) (by simp)
-      simp only [wText, pText, optStr, Option.map_none, Option.map_some, List.append_nil, he]
-      simp only [List.append_nil] at hs
-      rw [loop_step _ _ _ _ _ _ _ _ _ _ hs, loop_nil]
+      obtain ⟨f', rfl⟩ : ∃ f', f = f' + 1 := ⟨f - 1, by simp [iters, b2n] at hf; omega⟩
+      obtain ⟨d, tl, he, hs⟩ := step_num s g1 n (reprText r) pos o (hw n rfl) hpos hrd hra
+      simp only [wText, pText, optStr, Option.map_none, Option.map_some, List.append_nil, he,
+        List.cons_append]
+      rw [loop_step _ _ _ _ _ _ _ _ _ _ hs,
+        loop_repr s g1 r .precision { o with minWidth := some n } f'
+          (by simp [iters, b2n] at hf; simp [b2n]; omega) (by simp) hor]
       cases o; simp_all
     | some q =>
-      obtain ⟨f', rfl⟩ : ∃ f', f = f' + 2 := ⟨f - 2, by simp [iters] at hf; omega⟩
-      obtain ⟨d, tl, he, hs⟩ := step_num s g1 n (46 :: digits q) pos o (hw n rfl) hpos
+      obtain ⟨f', rfl⟩ : ∃ f', f = f' + 2 := ⟨f - 2, by simp [iters, b2n] at hf; omega⟩
+      obtain ⟨d, tl, he, hs⟩ := step_num s g1 n (46 :: digits q ++ reprText r) pos o (hw n rfl) hpos
         (by intro c hc; simp at hc; subst hc; decide) (by intro c hc; simp at hc; subst hc; decide)
-      have hs2 := step_prec s g1 q .precision { o with minWidth := some n } (hp q rfl) (by simp)
-      simp only [wText, pText, optStr, Option.map_some, he, List.cons_append]
-      rw [loop_step _ _ _ _ _ _ _ _ _ _ hs, loop_step _ _ _ _ _ _ _ _ _ _ hs2, loop_nil]
-
+      have hs2 := step_prec s g1 q (reprText r) .precision { o with minWidth := some n } (hp q rfl)
+        (by simp) hrd
+      simp only [wText, pText, optStr, Option.map_some, he, List.cons_append, List.append_assoc]
+      simp only [List.cons_append, List.append_assoc] at hs
+      rw [loop_step _ _ _ _ _ _ _ _ _ _ hs, loop_step _ _ _ _ _ _ _ _ _ _ hs2,
+        loop_repr s g1 r .type { o with minWidth := some n, precision := some q } f'
+          (by simp [iters, b2n] at hf; simp [b2n]; omega) (by simp) hor]
 
 /-! ## format options: the fill / alignment arms -/
 
@@ -447,41 +515,47 @@ theorem alignStr_spec (a : Align) (h : a ≠ .default) :
   | center => exact ⟨94, rfl, by decide, by decide⟩
   | right => exact ⟨62, rfl, by decide, by decide⟩
 
-theorem tail_headIs_align (w p : Option Nat) : headIs isAlignCh (wText w ++ pText p) = false :=
-  headIs_false_of _ _ (tail_head_not_align w p)
+def tailText (w p : Option Nat) (r : Option Repr') : List Nat := wText w ++ pText p ++ reprText r
 
+theorem tail_headIs_align (w p : Option Nat) (r : Option Repr') :
+    headIs isAlignCh (tailText w p r) = false :=
+  headIs_false_of _ _ (tail_head_not_align w p r)
 
 /-! ## format options: `parse (render o) = o` -/
 
 theorem render_eq (o : Opts) :
-    render o = optStr o.fill ++ alignStr o.align ++ (wText o.minWidth ++ pText o.precision) := by
-  simp [render, wText, pText]
+    render o = optStr o.fill ++ alignStr o.align ++ tailText o.minWidth o.precision o.repr := by
+  simp [render, tailText, wText, pText]
 
 theorem roundtrip (o : Opts) (g : Nat) (hwf : WF o) (hg : GraphemeOk o g) :
     parse (render o) g = .ok o := by
-  obtain ⟨align, w, p, fill, repr⟩ := o
+  obtain ⟨align, w, p, fill, r⟩ := o
   simp only [WF, wf, Bool.and_eq_true] at hwf
-  obtain ⟨⟨⟨hr, hw⟩, hp⟩, hfill⟩ := hwf
-  have hr' : repr = none := by simpa using hr
-  subst hr'
+  obtain ⟨⟨hw, hp⟩, hfill⟩ := hwf
   have hwb : ∀ n, w = some n → n ≤ u32Max := by
     intro n hn; subst hn; simpa using hw
   have hpb : ∀ n, p = some n → n ≤ u32Max := by
     intro n hn; subst hn; simpa using hp
-  have hit := iters_le w p
-  have hta := tail_headIs_align w p
+  have hit : iters w p r ≤ (tailText w p r).length := iters_le w p r
+  have hta := tail_headIs_align w p r
+  have htl : ∀ (pos : PPos) (o : Opts) (f : Nat), iters w p r ≤ f → (pos = .start ∨ pos = .minWidth) →
+      o.minWidth = none → o.precision = none → o.repr = none →
+      loop (optStr fill ++ alignStr align ++ tailText w p r) g f pos o (tailText w p r)
+        = .ok { o with minWidth := w, precision := p, repr := r } :=
+    fun pos o f hf hpos h1 h2 h3 => loop_tail _ g w p r pos o f hf hwb hpb hpos h1 h2 h3
   rw [render_eq]
   simp only [parse]
+  generalize hT : tailText w p r = T at *
   cases fill with
   | none =>
     by_cases ha : align = .default
     · subst ha
-      simp only [optStr, alignStr, List.nil_append]
-      rw [loop_tail _ _ w p .start {} _ hit hwb hpb (Or.inl rfl) rfl rfl]
+      simp only [optStr, alignStr, List.nil_append] at htl ⊢
+      rw [htl .start {} _ hit (Or.inl rfl) rfl rfl rfl]
     · obtain ⟨ac, hs, hac, hao⟩ := alignStr_spec align ha
-      simp only [optStr, hs, List.nil_append, List.cons_append, List.length_cons]
+      simp only [optStr, hs, List.nil_append, List.cons_append, List.length_cons] at htl ⊢
       rw [loop_step _ _ _ _ _ _ _ _ _ _ (step_align _ g ac _ .start {} hac (Or.inr ⟨rfl, hta⟩))]
-      rw [loop_tail _ _ w p .minWidth _ _ hit hwb hpb (Or.inr rfl) rfl rfl, hao]
+      rw [htl .minWidth _ _ hit (Or.inr rfl) rfl rfl rfl, hao]
   | some fl =>
     match fl, hfill, hg with
     | [], hfill, _ => simp at hfill
@@ -495,25 +569,28 @@ theorem roundtrip (o : Opts) (g : Nat) (hwf : WF o) (hg : GraphemeOk o g) :
           obtain ⟨n, rfl⟩ : ∃ n, w = some n := Option.isSome_iff_exists.mp hfill
           obtain ⟨m, tl, he, hm, _⟩ := digitsAux_head (n + 1) n (by omega)
           have he' : digits n = (48 + m) :: tl := he
-          have hrd : headIs isDigit (wText (some n) ++ pText p) = true := by
-            simp [wText, optStr, he', headIs, isDigit_add m hm]
-          simp only [optStr, alignStr, List.append_nil, List.cons_append, List.nil_append, List.length_cons]
+          have hrd : headIs isDigit T = true := by
+            rw [← hT]
+            simp [tailText, wText, optStr, he', headIs, isDigit_add m hm]
+          simp only [optStr, alignStr, List.append_nil, List.cons_append, List.nil_append,
+            List.length_cons] at htl ⊢
           rw [loop_step _ _ _ _ _ _ _ _ _ _ (step_zero _ g _ {} hta hrd)]
-          rw [loop_tail _ _ (some n) p .minWidth _ _ hit hwb hpb (Or.inr rfl) rfl rfl]
+          rw [htl .minWidth _ _ hit (Or.inr rfl) rfl rfl rfl]
         · have hc' : (c == 48) = false := by simp [hc]
           simp only [hc', Bool.false_eq_true, if_false, Bool.and_eq_true, Option.isNone_iff_eq_none] at hfill
-          obtain ⟨⟨hpl, hwn⟩, hpn⟩ := hfill
-          subst hwn; subst hpn
-          simp only [optStr, alignStr, wText, pText, Option.map_none, List.append_nil, List.length_cons,
-            List.length_nil]
+          obtain ⟨⟨⟨hpl, hwn⟩, hpn⟩, hrn⟩ := hfill
+          subst hwn; subst hpn; subst hrn
+          have hT0 : T = [] := by rw [← hT]; rfl
+          subst hT0
+          simp only [optStr, alignStr, List.append_nil, List.length_cons, List.length_nil]
           have hgen := step_generic [c] g c [] {} hpl (by simp [headIs]) (by simp)
           rw [loop_step _ _ _ _ _ _ _ _ _ _ hgen]
           obtain ⟨k, hk⟩ : ∃ k, max g 1 = k + 1 := ⟨max g 1 - 1, by omega⟩
           simp [hk, loop_nil]
       · obtain ⟨ac, hs, hac, hao⟩ := alignStr_spec align ha
-        simp only [optStr, hs, List.cons_append, List.nil_append, List.length_cons]
+        simp only [optStr, hs, List.cons_append, List.nil_append, List.length_cons] at htl ⊢
         rw [loop_step _ _ _ _ _ _ _ _ _ _ (step_fill1 _ g c ac _ {} hac)]
-        rw [loop_tail _ _ w p .minWidth _ _ (by omega) hwb hpb (Or.inr rfl) rfl rfl, hao]
+        rw [htl .minWidth _ _ (by omega) (Or.inr rfl) rfl rfl rfl, hao]
     | c :: d :: t, hfill, hg =>
       simp only [Bool.and_eq_true, Bool.or_eq_true, Bool.not_eq_true', bne_iff_ne, ne_eq,
         Option.isNone_iff_eq_none] at hfill
@@ -521,41 +598,43 @@ theorem roundtrip (o : Opts) (g : Nat) (hwf : WF o) (hg : GraphemeOk o g) :
       have hg' : g = t.length + 2 := by
         simpa [GraphemeOk, graphemeOk] using hg
       have hmax : max g 1 = (c :: d :: t).length := by simp [hg']
-      have hdot : (c == 46 && !(d :: (t ++ (alignStr align ++ (wText w ++ pText p)))).isEmpty) = false := by
+      have hdot : (c == 46 && !(d :: (t ++ (alignStr align ++ T))).isEmpty) = false := by
         simp [hc46]
-      have hgen := step_generic ((c :: d :: t) ++ alignStr align ++ (wText w ++ pText p)) g c
-        (d :: (t ++ (alignStr align ++ (wText w ++ pText p)))) {} hpl (by simpa [headIs] using hda) hdot
+      have hgen := step_generic ((c :: d :: t) ++ alignStr align ++ T) g c
+        (d :: (t ++ (alignStr align ++ T))) {} hpl (by simpa [headIs] using hda) hdot
       rw [hmax] at hgen
-      have htake : ((c :: d :: t) ++ alignStr align ++ (wText w ++ pText p)).take (c :: d :: t).length
+      have htake : ((c :: d :: t) ++ alignStr align ++ T).take (c :: d :: t).length
           = c :: d :: t := by
         rw [List.append_assoc, List.take_left']
         rfl
-      have hdrop : ((c :: d :: t) ++ alignStr align ++ (wText w ++ pText p)).drop (c :: d :: t).length
-          = alignStr align ++ (wText w ++ pText p) := by
+      have hdrop : ((c :: d :: t) ++ alignStr align ++ T).drop (c :: d :: t).length
+          = alignStr align ++ T := by
         rw [List.append_assoc, List.drop_left']
         rfl
       rw [htake, hdrop] at hgen
-      simp only [optStr]
-      have hlen : ((c :: d :: t) ++ alignStr align ++ (wText w ++ pText p)).length
-          = (t.length + (alignStr align).length + (wText w ++ pText p).length + 1) + 1 := by
+      simp only [optStr] at htl ⊢
+      have hlen : ((c :: d :: t) ++ alignStr align ++ T).length
+          = (t.length + (alignStr align).length + T.length + 1) + 1 := by
         simp only [List.length_append, List.length_cons]; omega
-      have hcons : (c :: d :: t) ++ alignStr align ++ (wText w ++ pText p)
-          = c :: (d :: (t ++ (alignStr align ++ (wText w ++ pText p)))) := by simp
+      have hcons : (c :: d :: t) ++ alignStr align ++ T
+          = c :: (d :: (t ++ (alignStr align ++ T))) := by simp
       rw [hlen]
       conv => lhs; arg 6; rw [hcons]
       rw [loop_step _ _ _ _ _ _ _ _ _ _ hgen]
       by_cases ha : align = .default
       · subst ha
-        have hwp : w = none ∧ p = none := by
+        have hwp : w = none ∧ p = none ∧ r = none := by
           rcases hrest with h | h
           · exact absurd rfl h
-          · exact h
-        obtain ⟨hw0, hp0⟩ := hwp
-        subst hw0; subst hp0
-        simp only [alignStr, wText, pText, optStr, Option.map_none, List.append_nil, loop_nil]
+          · exact ⟨h.1.1, h.1.2, h.2⟩
+        obtain ⟨hw0, hp0, hr0⟩ := hwp
+        subst hw0; subst hp0; subst hr0
+        have hT0 : T = [] := by rw [← hT]; rfl
+        subst hT0
+        simp only [alignStr, List.append_nil, loop_nil]
       · obtain ⟨ac, hs, hac, hao⟩ := alignStr_spec align ha
-        simp only [hs, List.cons_append, List.nil_append, List.length_cons, List.length_nil]
+        simp only [hs, List.cons_append, List.nil_append, List.length_cons, List.length_nil] at htl ⊢
         rw [loop_step _ _ _ _ _ _ _ _ _ _ (step_align _ g ac _ .alignment _ hac (Or.inl rfl))]
-        rw [loop_tail _ _ w p .minWidth _ _ (by omega) hwb hpb (Or.inr rfl) rfl rfl, hao]
+        rw [htl .minWidth _ _ (by omega) (Or.inr rfl) rfl rfl rfl, hao]
 
 end KotoVerif.C11.Lemmas
